@@ -20,13 +20,33 @@ import (
 	"github.com/enbility/spine-go/model"
 )
 
-// How a selector field takes part in FilterData.SelectorMatch.
+// What a field of a selectors struct is, by the types of the selector field and of the item field of the same
+// name (facts of the data model; twin of Spine.Tables.SelType).
 const (
-	SelIgnored = "ignored" // not a pointer field, or the item has no field of that name: skipped by the code
-	SelEq      = "eq"      // same pointer-to-scalar type as the item field: compared by value
-	SelNever   = "never"   // pointer field whose value can never equal the item's (other type, or a struct holding pointers)
-	SelPanics  = "panics"  // the item field is not a pointer, or the struct type is not comparable: SelectorMatch panics
+	SelTIgnored   = "ignored"   // the selector field is not a pointer, or the item has no field of that name
+	SelTScalar    = "scalar"    // same pointer-to-scalar type as the item field
+	SelTOtherType = "othertype" // the item field is a pointer of another type
+	SelTNonPtr    = "nonptr"    // the item field is not a pointer (a slice)
+	SelTStruct    = "struct"    // same pointer-to-struct type, comparable with ==
+	SelTStructNC  = "structnc"  // same pointer-to-struct type, not comparable with == (holds a slice)
 )
+
+// How FilterData.SelectorMatch of the tree under test treats a selector field (SelKind, set by Resolve from the
+// type of the field and the probed UpdSelFacts).
+const (
+	SelIgnored       = "ignored"        // skipped by the code
+	SelEq            = "eq"             // compared by value with the item field: matches when equal
+	SelNever         = "never"          // compared, but can never be equal (other type; struct holding pointers under !=)
+	SelPanics        = "panics"         // SelectorMatch panics whatever the item holds
+	SelAbsent        = "absent"         // never matches and never panics (non-pointer item field behind the nil check)
+	SelPresentPanics = "present-panics" // no match when the item field is nil, panic when it is present (non-comparable struct under != behind the nil check)
+)
+
+// UpdSelFacts: how SelectorMatch of the tree under test behaves (probed on the real code; twin of Spine.Tables.SelFacts).
+type UpdSelFacts struct {
+	NilPanics  bool // the selected item field is nil or not a pointer: panic (true) / no match (false)
+	StructDeep bool // struct-typed values are compared deeply (reflect.DeepEqual) / with != (false)
+}
 
 type UpdKey struct {
 	Idx  int
@@ -49,8 +69,10 @@ type UpdShape struct {
 	SelField  string
 	SelT      reflect.Type // selectors struct (nil when the FilterType has no field for the function)
 	SelNames  []string
-	SelMap    []int    // per selector field: item field index, -1 = none, N = "panics" (out of range on purpose)
-	SelKind   []string // per selector field: Sel* above
+	SelIdx    []int    // per selector field: item field of the same name, -1 = none or ignored (type fact)
+	SelType   []string // per selector field: SelT* above (type fact)
+	SelMap    []int    // per selector field: entry of the model's selMap (set by Resolve; twin of Spine.Tables.selEntryFor)
+	SelKind   []string // per selector field: Sel* above (set by Resolve)
 	ElField   string
 	ElT       reflect.Type // elements struct (nil when absent)
 	ElN       int
@@ -182,19 +204,23 @@ func UpdShapes() []*UpdShape {
 				ef := s.SelT.Field(k)
 				s.SelNames = append(s.SelNames, ef.Name)
 				itf, ok := it.FieldByName(ef.Name)
+				idx := -1
+				if ok {
+					idx = itf.Index[0]
+				}
 				switch {
 				case ef.Type.Kind() != reflect.Ptr || !ok:
-					s.SelMap, s.SelKind = append(s.SelMap, -1), append(s.SelKind, SelIgnored)
+					s.SelIdx, s.SelType = append(s.SelIdx, -1), append(s.SelType, SelTIgnored)
 				case itf.Type.Kind() != reflect.Ptr:
-					s.SelMap, s.SelKind = append(s.SelMap, s.N), append(s.SelKind, SelPanics)
+					s.SelIdx, s.SelType = append(s.SelIdx, idx), append(s.SelType, SelTNonPtr)
 				case itf.Type != ef.Type:
-					s.SelMap, s.SelKind = append(s.SelMap, itf.Index[0]), append(s.SelKind, SelNever)
+					s.SelIdx, s.SelType = append(s.SelIdx, idx), append(s.SelType, SelTOtherType)
 				case ef.Type.Elem().Kind() == reflect.Struct && !ef.Type.Elem().Comparable():
-					s.SelMap, s.SelKind = append(s.SelMap, s.N), append(s.SelKind, SelPanics)
+					s.SelIdx, s.SelType = append(s.SelIdx, idx), append(s.SelType, SelTStructNC)
 				case ef.Type.Elem().Kind() == reflect.Struct:
-					s.SelMap, s.SelKind = append(s.SelMap, itf.Index[0]), append(s.SelKind, SelNever)
+					s.SelIdx, s.SelType = append(s.SelIdx, idx), append(s.SelType, SelTStruct)
 				default:
-					s.SelMap, s.SelKind = append(s.SelMap, itf.Index[0]), append(s.SelKind, SelEq)
+					s.SelIdx, s.SelType = append(s.SelIdx, idx), append(s.SelType, SelTScalar)
 				}
 			}
 		}
@@ -238,7 +264,46 @@ func joinIdx(l []int) string {
 	return strings.Join(p, ",")
 }
 
-// Line is the `shape …` line of the drv_upd protocol.
+// Resolve sets SelMap and SelKind for a tree whose SelectorMatch behaves as f says.
+// Twin of Spine.Tables.selEntryFor (the driver computes the model's selMap with the Lean function; the harness
+// compares the two through the driver's `selmap?` op).
+func (s *UpdShape) Resolve(f UpdSelFacts) {
+	s.SelMap, s.SelKind = nil, nil
+	for j, ty := range s.SelType {
+		i := s.SelIdx[j]
+		m, k := -1, SelIgnored
+		switch ty {
+		case SelTIgnored:
+		case SelTScalar:
+			m, k = i, SelEq
+		case SelTOtherType:
+			m, k = i, SelNever
+		case SelTNonPtr:
+			m, k = s.N, SelAbsent
+			if f.NilPanics {
+				k = SelPanics
+			}
+		case SelTStruct:
+			m, k = i, SelNever
+			if f.StructDeep {
+				k = SelEq
+			}
+		case SelTStructNC:
+			switch {
+			case f.StructDeep:
+				m, k = i, SelEq
+			case f.NilPanics:
+				m, k = s.N, SelPanics
+			default:
+				m, k = s.N+1+i, SelPresentPanics
+			}
+		}
+		s.SelMap, s.SelKind = append(s.SelMap, m), append(s.SelKind, k)
+	}
+}
+
+// Line is the `shape …` line of the drv_upd protocol (type facts only; the driver derives the model's selMap
+// from them and the `cfg` flags).
 func (s *UpdShape) Line() string {
 	var ks []string
 	for _, k := range s.Keys {
@@ -248,7 +313,11 @@ func (s *UpdShape) Line() string {
 	if len(ks) > 0 {
 		keys = strings.Join(ks, ",")
 	}
-	return fmt.Sprintf("shape n=%d keys=%s flag=%s selmap=%s eln=%d elmap=%s", s.N, keys, optIdx(s.Flag), joinIdx(s.SelMap), s.ElN, joinIdx(s.ElMap))
+	tys := "."
+	if len(s.SelType) > 0 {
+		tys = strings.Join(s.SelType, ",")
+	}
+	return fmt.Sprintf("shape n=%d keys=%s flag=%s selidx=%s seltypes=%s eln=%d elmap=%s", s.N, keys, optIdx(s.Flag), joinIdx(s.SelIdx), tys, s.ElN, joinIdx(s.ElMap))
 }
 
 // ---------- G4: wiring of the per-type UpdateList methods (go/ast)
